@@ -92,7 +92,7 @@ def name_sites(ctx, res):
     with ctx["Lock"]("lake"):
         rc, out, dt = ctx["run"](["lake", "env", "lean", q], cwd=ctx["lean"])
     grp = ctx["pid"]
-    lines = [l for l in out.splitlines() if l.startswith(("UNCLASSIFIED " + grp, "NOT-ORDER-FREE " + grp, "GLOBALWRITE " + grp))]
+    lines = [l for l in out.splitlines() if l.startswith(("UNCLASSIFIED " + grp, "NOT-ORDER-FREE " + grp, "GLOBALWRITE " + grp, "SHARED-STATE " + grp))]
     uncl = [l for l in lines if l.startswith("UNCLASSIFIED")]
     res["coverage"]["sites_report"] = lines[:40]
     if uncl:
